@@ -621,6 +621,27 @@ func applyModel(ir mIR, ps PassSpec) modelResult {
 		tpkg, tobj := splitRef(ps.To)
 		hit := false
 		rep := func(t any, owner string) {
+			// first the discriminator mappings, which name the branches about to be replaced
+			walkTypes(t, func(t mObj) {
+				d, ok := t["Disjunction"].(map[string]any)
+				if !ok || str(t["Kind"]) != "disjunction" {
+					return
+				}
+				mapping, _ := d["DiscriminatorMapping"].(map[string]any)
+				branches, _ := d["Branches"].([]any)
+				for _, b := range branches {
+					bt, _ := b.(map[string]any)
+					r, ok := bt["Ref"].(map[string]any)
+					if !ok || str(bt["Kind"]) != "ref" || str(r["ReferredPkg"]) != pkg || !fold(str(r["ReferredType"]), obj) {
+						continue
+					}
+					for k, v := range mapping {
+						if str(v) == str(r["ReferredType"]) {
+							mapping[k] = tobj
+						}
+					}
+				}
+			})
 			walkTypes(t, func(t mObj) {
 				if r, ok := t["Ref"].(map[string]any); ok && str(t["Kind"]) == "ref" && str(r["ReferredPkg"]) == pkg && fold(str(r["ReferredType"]), obj) {
 					r["ReferredPkg"], r["ReferredType"] = tpkg, tobj
